@@ -55,3 +55,10 @@ package hotstuff
 //@   trusted little-endian encoding of the view; a function of the view
 //@   ensures content(result) == viewcontent(v) && len(result) == 8 && fresh(result)
 //@   modifies alloc
+
+// bytes-to-sign of a timeout message: a function of sender, view and the attested QC
+//@ pure func tmcontent(id ID, v View, hasqc bool, qc QuorumCert) int
+//@ func (TimeoutMsg).ToBytes
+//@   trusted the bytes-to-sign of a timeout message are a function of its id, view and QC (serialisation checked under C12)
+//@   ensures content(result) == tmcontent(timeout.ID, timeout.View, timeout.SyncInfo.qc != nil, *timeout.SyncInfo.qc) && fresh(result)
+//@   modifies alloc
